@@ -105,7 +105,7 @@ def run(ctx):
         cp_flag = None
     r = vlib.rng(ctx.seed, "C15")
     corpus = load_corpus(ctx)
-    n_mono, n_sens, n_gen = (130, 70, 40) if ctx.quick else (1800, 900, 500)
+    n_mono, n_sens, n_gen = (500, 250, 120) if ctx.quick else (6000, 3000, 1500)
     mono = [c for c in corpus if not c.get("generic")] + [G.gen_case(r) for _ in range(n_mono)] \
         + [G.gen_sensitive_case(r) for _ in range(n_sens)]
     generic = [c for c in corpus if c.get("generic")] + [G.gen_generic_case(r) for _ in range(n_gen)]
